@@ -56,3 +56,65 @@ Proof.
   - destruct (op_step g p) as [g' out'] eqn:E. cbn [nth_error]. intros H. rewrite (IH g' H).
     destruct p; cbn in E; inversion E; cbn; lia.
 Qed.
+
+(* ---- third wave: one TypeSystem object, several loads, types created in between ---- *)
+Lemma session_app pf ops1 : forall s ops2,
+  session pf s (ops1 ++ ops2) = (session pf s ops1 ++ session pf (types_after s ops1) ops2)%list.
+Proof.
+  induction ops1 as [|o r IH]; intros s ops2; [reflexivity|].
+  destruct o as [src b t d|ti]; cbn [app session types_after]; rewrite IH; reflexivity.
+Qed.
+
+(* whatever the object served before - loads, lenient or strict, of any documents, while it defined fewer types - a
+   load gives what the reader gives for the types the object defines at that moment *)
+Theorem session_last_load pf s ops src b t d :
+  session pf s (ops ++ [SLoad src b t d]) = (session pf s ops ++ [load_xmi pf (types_after s ops) b d])%list.
+Proof. rewrite session_app. cbn [session]. rewrite entry_is_load. reflexivity. Qed.
+
+Lemma sch_find_app s s' n :
+  sch_find (s ++ s') n = match sch_find s n with Some t => Some t | None => sch_find s' n end.
+Proof. induction s as [|t r IH]; [reflexivity|]. cbn [app sch_find]. destruct (String.eqb n (ti_name t)); [reflexivity|exact IH]. Qed.
+
+Lemma types_after_extends s ops : exists s', types_after s ops = (s ++ s')%list.
+Proof.
+  revert s; induction ops as [|o r IH]; intros s; [exists []; now rewrite app_nil_r|].
+  destruct o as [src b t d|ti]; cbn [types_after]; [apply IH|].
+  destruct (IH (create_type s ti)) as [s' E]. exists (ti :: s'). rewrite E. unfold create_type. now rewrite <- app_assoc.
+Qed.
+
+(* a type never gets lost: what is of a defined type stays so, whatever is loaded or created afterwards *)
+Theorem known_stays_known s ops e : unknown s e = false -> unknown (types_after s ops) e = false.
+Proof.
+  destruct (types_after_extends s ops) as [s' ->]. unfold unknown. destruct (is_other e); [|reflexivity]. cbn [andb].
+  rewrite sch_find_app. destruct (sch_find s _); [reflexivity|discriminate].
+Qed.
+
+(* create_type makes the name known, from the next lookup on *)
+Theorem created_is_known s ti ops n : n = ti_name ti -> sch_find (types_after (create_type s ti) ops) n <> None.
+Proof.
+  intros ->. destruct (types_after_extends (create_type s ti) ops) as [s' ->]. unfold create_type.
+  rewrite !sch_find_app. destruct (sch_find s (ti_name ti)); [discriminate|]. cbn [sch_find]. rewrite String.eqb_refl. discriminate.
+Qed.
+
+(* the three statements about load_xmi, at any point of a session, for the types defined at that point *)
+Theorem session_lenient_is_filter pf s ops src t d : let s' := types_after s ops in
+  dropped_ids_okb s' d = true ->
+  session pf s (ops ++ [SLoad src true t d])
+  = (session pf s ops ++ [with_lenient true (load_xmi pf s' false (drop_unknown s' d))])%list.
+Proof. intros s' H. rewrite session_last_load. fold s'. rewrite (lenient_is_filter pf s' d H). reflexivity. Qed.
+
+Theorem session_strict_raises pf s ops src t d st : let s' := types_after s ops in
+  pass1 pf s' true p1_init d = Ok st -> existsb (unknown s') d = true ->
+  session pf s (ops ++ [SLoad src false t d]) = (session pf s ops ++ [Err ETypeNotFound])%list.
+Proof. intros s' H1 H2. rewrite session_last_load. fold s'. rewrite (load_strict_raises pf s' d st H1 H2). reflexivity. Qed.
+
+(* once every element of the document is of a defined type - because the missing types have been created in the
+   meantime - the flag no longer matters, although an earlier load of the same object dropped or refused them *)
+Theorem session_all_defined_flag_irrelevant pf s ops src src' t t' d : let s' := types_after s ops in
+  forallb (fun e => negb (unknown s' e)) d = true ->
+  session pf s (ops ++ [SLoad src true t d; SLoad src' false t' d])
+  = (session pf s ops ++ [with_lenient true (load_xmi pf s' false d); load_xmi pf s' false d])%list.
+Proof.
+  intros s' H. rewrite session_app. cbn [session]. rewrite !entry_is_load. fold s'.
+  rewrite (leniency_noninterference pf s' d H). reflexivity.
+Qed.
